@@ -105,3 +105,58 @@ func VerifC03Placement() {
 	verif.Assert("C03/placement/query-field-in-query-everywhere", verif.And(srvQuery, gcQuery, tcQuery, tsQuery, opQuery))
 	verif.Reach("C03/placement/decided")
 }
+
+// VerifC03TSPathSegments: the TS server reads every path variable from the URL segment where
+// the published template has it (also for variables in directly adjacent segments), i.e. it
+// carries the same fields in the path as the other generators.
+func VerifC03TSPathSegments() {
+	tmpl := []string{"/things/{a}", "/{a}/{b}", "/t/{a}/{b}/{c}", "/t/{a}/x/{b}", "/{a}/x/{b}/{c}"}[verif.Choice("template", 5)]
+	base := []string{"", "/api/v1", "/v2/"}[verif.Choice("base", 3)]
+	req := verif.NewMessage("acme.v1", "Req")
+	for i, n := range []string{"a", "b", "c"} {
+		if strings.Contains(tmpl, "{"+n+"}") {
+			verif.AddField(req, &verif.FieldDesc{FName: n, FJSON: n, FKind: protoreflect.StringKind, FNumber: int32(i + 1), FOpts: &descriptorpb.FieldOptions{}}, strings.ToUpper(n))
+		}
+	}
+	so := &descriptorpb.ServiceOptions{}
+	if base != "" {
+		verif.SetExt(so, http.E_ServiceConfig, &http.ServiceConfig{BasePath: base})
+	}
+	svc := verif.NewService("acme.v1", "ThingService", so)
+	mo := &descriptorpb.MethodOptions{}
+	verb := http.HttpMethod_HTTP_METHOD_GET
+	if verif.Bool("verb.put") {
+		verb = http.HttpMethod_HTTP_METHOD_PUT
+	}
+	verif.SetExt(mo, http.E_Config, &http.HttpConfig{Path: tmpl, Method: verb})
+	m := verif.NewMethod(svc, "Get", "Get", req, verif.NewMessage("acme.v1", "Resp"), mo)
+	_, full, vars, _, _, err := tsservergen.VerifRoute(svc, m)
+	verif.Assert("C03/ts-segments/route-accepted", err == nil)
+	lines, err2 := tsservergen.VerifRouteLines(svc, m)
+	verif.Assert("C03/ts-segments/route-emitted", err2 == nil)
+	segs := strings.Split(full, "/")
+	for _, v := range vars {
+		want := -1
+		for i, sg := range segs {
+			if sg == "{"+v+"}" {
+				want = i
+			}
+		}
+		got := -2
+		pfx := `pathParams["` + v + `"] = decodeURIComponent(pathSegments[`
+		for _, l := range lines {
+			t := strings.TrimSpace(l)
+			if strings.HasPrefix(t, pfx) {
+				rest := t[len(pfx):]
+				if k := strings.Index(rest, "]"); k > 0 {
+					if n, ok := verif.AtoiRef(rest[:k]); ok {
+						got = int(n)
+					}
+				}
+			}
+		}
+		verif.Show("variable", v)
+		verif.Assert("C03/ts-segments/variable-read-from-its-template-segment", got == want)
+	}
+	verif.Reach("C03/ts-segments/decided")
+}
